@@ -324,6 +324,9 @@ func (vc *VC) applyContract(fr *Frame, callee *ssa.Function, fi *FuncInfo, args 
 	post := vc.st
 	eargs := append(append([]SV{}, cargs...), results...)
 	for _, en := range fi.C.Ensures {
+		if len(en.Locals) > 0 {
+			continue // speaks about the callee's local variables: not usable at a call site
+		}
 		g := vc.evalClause(en.GoName, fi.C.Pkg, eargs, post, pre)
 		vc.assume(g)
 	}
@@ -447,6 +450,33 @@ func (vc *VC) gcIntrinsic(fr *Frame, inst *ssa.Function, args []SV) ([]SV, bool)
 		return []SV{vc.chAt(chanElem(ptype(0)), args[0].L[0], args[1].L[0])}, true
 	case "gcSliceAt":
 		return []SV{scalar(and(eq(args[0].L[0], args[1].L[0]), eq(args[0].L[1], vc.ix(args[1].L[1], args[2].L[0]))))}, true
+	case "gcU64":
+		// the []uint64 view of a byte slice's storage (reflect.SliceHeader reinterpretation, as in
+		// z.BytesToUint64Slice): a pseudo-array whose reference is the negated reference of the
+		// byte array (so it coincides with no allocated object and two views coincide exactly when
+		// the byte arrays do), element offset = byte offset / 8.
+		a := args[0]
+		vc.ix("(_ bv0 64)", "(_ bv0 64)") // make sure ix is declared
+		if !vc.declared["w8"] {
+			vc.declared["w8"] = true
+			// w8 x = x / 8, with the fact that it distributes over the offset composition ix when the
+			// added offset is a multiple of 8 (offsets of slices never wrap: sliceWF)
+			vc.decls = append(vc.decls, "(declare-fun w8 ((_ BitVec 64)) (_ BitVec 64))",
+				"(assert (forall ((a (_ BitVec 64))) (! (= (w8 a) (bvlshr a (_ bv3 64))) :pattern ((w8 a)))))",
+				"(assert (forall ((a (_ BitVec 64)) (c (_ BitVec 64))) (! (=> (and (= (bvand c (_ bv7 64)) (_ bv0 64)) (bvule a (_ bv4611686018427387904 64)) (bvule c (_ bv4611686018427387904 64))) (= (w8 (ix a c)) (ix (w8 a) (w8 c)))) :pattern ((w8 (ix a c))))))")
+		}
+		return []SV{{L: []string{"(- 0 " + a.L[0] + ")", "(w8 " + a.L[1] + ")", "(bvlshr " + a.L[2] + " (_ bv3 64))", "(bvlshr " + a.L[3] + " (_ bv3 64))"}}}, true
+	case "gcWfSlice":
+		// Go's slice-header invariant (what typeFacts assumes at loads), as a term
+		a := args[0]
+		wf := sliceWF(a.L[0], a.L[1], a.L[2], a.L[3])
+		if vc.binder == 0 && vc.rec == nil {
+			// true of every slice value Go can construct, in every state: stated as a fact
+			// (typeFacts does the same at loads, but not inside specification code)
+			vc.emit("(assert " + wf + ")")
+			vc.noteAssumption("Go slice-header invariant (0 <= len <= cap, 0 <= offset, offset+cap does not wrap) for slices named by gcWfSlice in contracts")
+		}
+		return []SV{scalar(wf)}, true
 	case "gcSameRef":
 		var cs []string
 		for j := range args[0].L {
